@@ -1,6 +1,6 @@
 use std::fmt;
 
-use syn::Lit;
+use syn::{Lit, Meta};
 
 use crate::ast::NestedMeta;
 use crate::{FromMeta, Result};
@@ -137,6 +137,16 @@ impl<T: fmt::Display> fmt::Display for Override<T> {
 /// Parses a `Meta`. A bare word will produce `Override::Inherit`, while
 /// any value will be forwarded to `T::from_meta`.
 impl<T: FromMeta> FromMeta for Override<T> {
+    fn from_meta(item: &Meta) -> Result<Self> {
+        match item {
+            Meta::Path(_) => Self::from_word(),
+            // Hand the whole item to `T`, so that every form `T` accepts - including
+            // non-literal expressions and the forms of a `T` with its own `from_meta` -
+            // is accepted here as well.
+            _ => T::from_meta(item).map(Explicit),
+        }
+    }
+
     fn from_word() -> Result<Self> {
         Ok(Inherit)
     }
